@@ -522,6 +522,10 @@ func TestVerifC20Hist(t *testing.T) {
 		if r == nil {
 			continue
 		}
+		if idx%6 == 2 { // round-7: the whole case runs under NON-DEFAULT --slo-config-name / --config-namespace
+			c20xFlagsCase(env, h, r)
+			continue
+		}
 		c := env.newCase(h)
 		c20xRandomHistory(c, r, idx%6 == 5)
 		c.finish()
@@ -532,7 +536,9 @@ func TestVerifC20Hist(t *testing.T) {
 		"after each step every enqueued request is reconciled and all NodeSLO specs are read back; in 1/3 of the cases a burst of 2-4 steps only ENQUEUES " +
 		"(requests reconciled one by one in random order in between and afterwards, some with an injected failure of the NodeSLO write, some spurious; oracle at quiescence); " +
 		"every 6th case contains a LAZY-INIT RACE step: restart whose ConfigMap Create event is late, the first Reconcile's IsCfgAvailable reads the ConfigMap and a client hook " +
-		"updates it and hands Create+Update to the real handler (other goroutine, bounded wait) before the sync, then all requests are reconciled, oracle = specs of the LATEST ConfigMap; non-trivial = some step where a field delivered to a node goes from set to unset; distinct by op lines")
+		"updates it and hands Create+Update to the real handler (other goroutine, bounded wait) before the sync, then all requests are reconciled, oracle = specs of the LATEST ConfigMap; " +
+		"every 6th case (idx%6==2) runs with sloconfig.SLOCtrlConfigMap and/or sloconfig.ConfigNameSpace set to NON-DEFAULT values for the whole case (the ConfigMap is stored and its events carry that name; in half of them a decoy ConfigMap with the DEFAULT name/namespace and other content sits in the API) " +
+		"and contains 1-2 restart steps whose ConfigMap Create event is LATE: every queued request is reconciled BEFORE any ConfigMap event (lazy first read of IsCfgAvailable), the oracle speaks there (specs of the STORED ConfigMap), then the late Create event; non-trivial = some step where a field delivered to a node goes from set to unset; distinct by op lines")
 }
 
 // ---------------------------------------------------------------- one case: world + oracle memory + step methods
@@ -583,6 +589,8 @@ type c20xCase struct {
 	sawUnset bool
 	hold     bool // events only enqueue (Model/C20HistQ.lean); requests are reconciled one by one by reconcileOne
 	goodHist [][]c20Good // the oracle's memory before each ConfigMap write of the case (to NAME a stale cache; never to excuse one)
+	lateRestarts int // > 0: the random history contains that many stepRestartLateObserved (c20xFlagsCase)
+	holdOracle bool // the observation is taken in hold mode but at quiescence (queue empty): the oracle speaks (stepRestartLateObserved)
 	wired    bool // the controller runs in a real manager: reconciles happen on its worker, observations only after settle()
 }
 
@@ -931,7 +939,7 @@ func (c *c20xCase) observe(kind string) {
 			}
 		}
 		// ---- oracle (at quiescence only: while requests are pending a NodeSLO may legitimately be stale)
-		if c.hold {
+		if c.hold && !c.holdOracle {
 			continue
 		}
 		if !have {
@@ -989,7 +997,16 @@ func (c *c20xCase) observe(kind string) {
 					staleOf = k
 				}
 			}
-			if staleOf >= 0 {
+			if kind == "restart-before-cm-event" && !viewOK {
+				// restart path: the cache was initialised by IsCfgAvailable's own read of the ConfigMap, no event handled yet
+				d := c20Diffs(obsV, exp)[0]
+				what := "is not the merge of the ConfigMap stored in the API"
+				if c20LayerEq(obsV, c20xExpect(s, c20Good{absent: true}, labels, c.env.defLayers[s])) {
+					what = "holds the BUILT-IN DEFAULTS although the ConfigMap is stored in the API"
+				}
+				c.fail("C20:hist:restart-lazy-init-missed-configmap:"+c20SecNames[s], "after a restart, reconciled before any ConfigMap event, the cache initialised by IsCfgAvailable %s (ConfigMap %s/%s) for n%d: section %s field %s: %s (after step %d %s, labels %v)",
+					what, sloconfig.ConfigNameSpace, sloconfig.SLOCtrlConfigMap, nm, c20SecNames[s], c20PathNames(d.p), d.what, stp, kind, labels)
+			} else if staleOf >= 0 {
 				d := c20Diffs(obsV, exp)[0]
 				c.fail("C20:hist:cache-stale:"+c20SecNames[s], "the cached config does not follow the current ConfigMap for n%d (it is what the ConfigMap said %d write(s) ago): section %s field %s: %s (after step %d %s, labels %v)",
 					nm, len(c.goodHist)-staleOf, c20SecNames[s], c20PathNames(d.p), d.what, stp, kind, labels)
@@ -1158,6 +1175,99 @@ func (c *c20xCase) stepRace(r *vRand, t1Secs []c20SecRaw) {
 	c.raceOld = raceOld
 	c.leaveHold(r)
 	c.raceOld = nil
+}
+
+// ---- restart path under non-default flags (round 7)
+
+// stepRestartLateObserved: controller restart whose initial ConfigMap Create event is LATE.  The informers' initial Node /
+// NodeSLO events are queued and EVERY request is reconciled before any ConfigMap event: the first Reconcile's IsCfgAvailable
+// initialises the cache by its own read of the ConfigMap (config.GetConfigMapForCache).  The queue is empty then, so the
+// oracle speaks (specs of the ConfigMap STORED in the API, or the defaults when there is none).  Then the late Create event.
+// Model ops: hmode 1; hrestartlate; hrec n ...; hobs; hcmlate; hmode 0; hobs.
+func (c *c20xCase) stepRestartLateObserved(r *vRand) {
+	h, w := c.h, c.w
+	c.enterHold()
+	h.Op("hrestartlate")
+	h.Tag("hstep:restart-late-observed")
+	w.start()
+	for s := range c.good { // the new process knows nothing of earlier texts
+		c.good[s], c.goodAlt[s] = c20Good{absent: true}, c20Good{absent: true}
+		if w.cmObj != nil && c.cur[s].state == 2 {
+			cp := c20xCopySec(c.cur[s])
+			c.good[s], c.goodAlt[s] = c20Good{sec: cp}, c20Good{sec: cp}
+		}
+	}
+	for _, nm := range c.names() {
+		w.nodeH.Create(c.ctx, event.TypedCreateEvent[client.Object]{Object: c20xNodeObj(nm, c.nodes[nm], false)}, w.q)
+	}
+	sl := &slov1alpha1.NodeSLOList{}
+	w.must(w.cl.List(c.ctx, sl), "list nodeslo")
+	for i := range sl.Items {
+		w.q.Add(reconcile.Request{NamespacedName: types.NamespacedName{Name: sl.Items[i].Name}})
+	}
+	if len(w.q.items) > 0 {
+		h.Tag("hlate:reconciled-before-cm-event")
+	}
+	for len(w.q.items) > 0 {
+		c.reconcileOne(r.Intn(len(w.q.items)), false)
+	}
+	c.holdOracle = true
+	c.observe("restart-before-cm-event")
+	c.holdOracle = false
+	if w.cmObj != nil {
+		h.Tag("hlate:configmap-stored")
+		h.Op("hcmlate")
+		if h.Guard(func() {
+			w.handler.Create(c.ctx, event.TypedCreateEvent[client.Object]{Object: w.cmObj.DeepCopy()}, w.q)
+		}) {
+			h.Obs("panic")
+			c.fail("C20:panic", "the ConfigMap handler panicked")
+		}
+	} else {
+		h.Tag("hlate:no-configmap")
+	}
+	c.leaveHold(r)
+}
+
+// stepDecoy: a ConfigMap with the DEFAULT name and namespace is created in the API while the controller runs with other
+// flags: it is a foreign object (its Create event must be ignored, and no read of "the" ConfigMap may return it).
+func (c *c20xCase) stepDecoy(name, ns string) {
+	h, w := c.h, c.w
+	h.Op("hforeign")
+	h.Tag("hstep:cm-decoy-default-name")
+	f := &corev1.ConfigMap{Data: map[string]string{
+		c20SecKeys[2]: `{"clusterStrategy":{"cpuBurstPercent":1}}`,
+		c20SecKeys[0]: `{"clusterStrategy":{"cpuSuppressThresholdPercent":1}}`,
+	}}
+	f.Name, f.Namespace = name, ns
+	w.must(w.cl.Create(c.ctx, f.DeepCopy()), "create decoy cm")
+	w.handler.Create(c.ctx, event.TypedCreateEvent[client.Object]{Object: f}, w.q)
+	c.observe("foreign")
+}
+
+// c20xFlagsCase: one history with the package variables behind --slo-config-name / --config-namespace set to non-default
+// values from before the controller is constructed until the case ends (restored afterwards; the harness is serial).
+func c20xFlagsCase(env *c20xEnv, h *vHarness, r *vRand) {
+	defName, defNS := sloconfig.SLOCtrlConfigMap, sloconfig.ConfigNameSpace
+	defer func() { sloconfig.SLOCtrlConfigMap, sloconfig.ConfigNameSpace = defName, defNS }()
+	switch r.Intn(3) {
+	case 0:
+		sloconfig.SLOCtrlConfigMap = "verif-slo-config"
+		h.Tag("hflags:name")
+	case 1:
+		sloconfig.ConfigNameSpace = "verif-system"
+		h.Tag("hflags:namespace")
+	default:
+		sloconfig.SLOCtrlConfigMap, sloconfig.ConfigNameSpace = "verif-slo-config", "verif-system"
+		h.Tag("hflags:name+namespace")
+	}
+	c := env.newCase(h)
+	if r.Bool() {
+		c.stepDecoy(defName, defNS)
+	}
+	c.lateRestarts = r.Range(1, 2)
+	c20xRandomHistory(c, r, false)
+	c.finish()
 }
 
 // ---- hold mode: events only enqueue; queued requests are reconciled one at a time, in any order
@@ -1383,7 +1493,8 @@ func c20xRandomHistory(c *c20xCase, r *vRand, race bool) {
 	}
 	h.Tag(fmt.Sprintf("hsteps:%d", nSteps))
 	forced := []string{}
-	if !r.Chance(1, 8) || race {
+	late := c.lateRestarts
+	if !r.Chance(1, 8) || race || late > 0 {
 		switch r.Intn(4) {
 		case 0:
 			forced = []string{"cm", "node"}
@@ -1396,12 +1507,15 @@ func c20xRandomHistory(c *c20xCase, r *vRand, race bool) {
 		}
 	}
 	holdAt, holdLen := -1, 0
-	if r.Chance(1, 3) && !race { // a burst of changes whose requests stay queued, reconciled in random order in between and after
+	if late == 0 && r.Chance(1, 3) && !race { // a burst of changes whose requests stay queued, reconciled in random order in between and after
 		holdAt, holdLen = r.Range(1, nSteps-1), r.Range(2, 4)
 	}
 	raced := false
 	if race && nSteps <= len(forced) {
 		nSteps = len(forced) + 1
+	}
+	if late > 0 && nSteps < len(forced)+late {
+		nSteps = len(forced) + late
 	}
 	for stp := 0; stp < nSteps; stp++ {
 		if stp == holdAt {
@@ -1455,8 +1569,17 @@ func c20xRandomHistory(c *c20xCase, r *vRand, race bool) {
 				c.stepCMDelete()
 			}
 		}
+		if late > 0 && stp >= len(forced) && len(c.nodes) > 0 && (nSteps-stp <= late || r.Chance(1, 3)) {
+			kind = "restartlate"
+			late--
+			if w.cmObj != nil && r.Chance(1, 8) { // no ConfigMap at all at the restart: the built-in defaults are right
+				c.stepCMDelete()
+			}
+		}
 		names := c.names()
 		switch kind {
+		case "restartlate":
+			c.stepRestartLateObserved(r)
 		case "race":
 			raced = true
 			t1 := make([]c20SecRaw, 5)
